@@ -856,21 +856,13 @@ const PASSES: &[Pass] = &[
         ops: &ALL_OPS,
         depth: [(SKIP, 4), (SKIP, SKIP), (SKIP, SKIP)],
         skip_probes: &[],
-        skip_variants: &["sec_nopk", "comp", "partial", "text", "late", "droplate"],
-        why: "full alphabet one level deeper (thorough tier only) on one variant per index family: PRIMARY KEY, UNIQUE, secondary",
-    },
-    Pass {
-        name: "full-droplate",
-        ops: &ALL_OPS,
-        depth: [(SKIP, 4), (SKIP, 3), (SKIP, SKIP)],
-        skip_probes: &[],
-        skip_variants: &["pk", "uniq", "sec", "sec_nopk", "comp", "partial", "text", "late"],
-        why: "full alphabet one level deeper (thorough tier only) on the variant whose index is dropped before probing (no index defect can prune it)",
+        skip_variants: &["pk", "uniq", "sec_nopk", "comp", "partial", "text", "late", "droplate"],
+        why: "full alphabet one level deeper (thorough tier only) on the plain secondary-index variant",
     },
     Pass {
         name: "ins-tx",
         ops: &[Ins1, Ins2, InsM, TX[0], TX[1], TX[2], TX[3], TX[4]],
-        depth: [(4, 5), (3, 5), (2, 3)],
+        depth: [(4, 5), (3, 4), (2, 3)],
         skip_probes: &["orderby-window"],
         skip_variants: &[],
         why: "LIMIT/OFFSET window probes removed (KF-C10-11: a rolled-back INSERT leaves its secondary-index entry); no UPDATE / DELETE (KF-C10-03..08 break index maintenance for them) and no NULL (KF-C10-02): inserts in any key order under every transaction bracket",
@@ -878,7 +870,7 @@ const PASSES: &[Pass] = &[
     Pass {
         name: "ins-commit",
         ops: &[Ins1, Ins2, InsM, Begin, Commit, Savept],
-        depth: [(3, 5), (3, 4), (1, 2)],
+        depth: [(3, 5), (3, 3), (1, 2)],
         skip_probes: &[],
         skip_variants: &[],
         why: "inserts in any key order, autocommit or inside committed transactions (no ROLLBACK / ROLLBACK TO: KF-C10-11), all probes including the LIMIT/OFFSET windows over the index-ordered scan",
@@ -888,8 +880,8 @@ const PASSES: &[Pass] = &[
         ops: &[Ins1, Ins2, InsM, TX[0], TX[1], TX[2], TX[3], TX[4]],
         depth: [(SKIP, 6), (SKIP, SKIP), (SKIP, SKIP)],
         skip_probes: &["orderby-window"],
-        skip_variants: &["uniq", "sec_nopk", "comp", "partial", "late", "droplate"],
-        why: "ins-tx one level deeper (thorough tier only) on the PRIMARY KEY, secondary and TEXT variants",
+        skip_variants: &["pk", "uniq", "sec_nopk", "comp", "partial", "text", "late", "droplate"],
+        why: "ins-tx one level deeper (thorough tier only) on the plain secondary-index variant",
     },
     Pass {
         name: "ins-null",
@@ -902,7 +894,7 @@ const PASSES: &[Pass] = &[
     Pass {
         name: "unique-del",
         ops: &[Ins1, Ins2, InsM, Upd2, Del1, Del2, DelVal, Reins1, Begin, Commit, Rollback],
-        depth: [(3, 4), (2, 4), (1, 2)],
+        depth: [(3, 4), (2, 3), (1, 2)],
         skip_probes: &["orderby"],
         skip_variants: &["sec", "sec_nopk", "comp", "partial", "text", "late", "droplate"],
         why: "PRIMARY KEY / UNIQUE variants without updates of the unique column (KF-C10-06): deletes, reinserts, non-key updates",
